@@ -364,6 +364,9 @@ def spec_call(self, name, e, st):
         return one(e.args[0], s)
     if name in SPEC_FUNCS:
         fn, atys, rty = SPEC_FUNCS[name]
+        if name in self.c.get("opaque_funcs", ()):
+            from .sorts import OPAQUE_FUNCS
+            fn = OPAQUE_FUNCS[name]
         args = [self.coerce(one(a), t) for a, t in zip(e.args, atys)]
         return Val(fn(*[a.t for a in args]), rty)
     if name == "call_arg":
@@ -473,10 +476,10 @@ def builtin_call(self, name, e, st):
             elif v.ty == "str":
                 yield st1, Val(z3.Length(v.t), "int")
             elif v.ty == "slist":
-                from .sorts import slen
+                slen = self.fn("slen")
                 yield st1, Val(slen(v.t), "int")
             elif v.ty == "sexp":
-                from .sorts import slen
+                slen = self.fn("slen")
                 yield st1, Val(z3.If(SExp.is_Lst(v.t), slen(SExp.items(v.t)), z3.Length(SExp.s(v.t))), "int")
             elif is_ref(v.ty) and v.ty[1].startswith("dict_"):
                 yield st1, Val(z3.Length(self.read_field(st1, v, v.ty[1], "keys").t), "int")
@@ -733,8 +736,16 @@ def method_call(self, st, base, attr, args, node):
                 return
             if attr == "append":
                 s = st.fork()
-                self.write_field(s, base, cls, "items",
-                                 Val(z3.Concat(items.t, z3.Unit(self.coerce(args[0], items.ty[1]).t)), items.ty), line)
+                x = self.coerce(args[0], items.ty[1]).t
+                new = fresh_const("app", items.t.sort())
+                k = bound_var("k", I)
+                n0 = z3.Length(items.t)
+                # the appended list, named, with the index-level facts stated explicitly (quantified invariants instantiate on them)
+                s.conds.append(new == z3.Concat(items.t, z3.Unit(x)))
+                s.conds.append(z3.Length(new) == n0 + 1)
+                s.conds.append(new[n0] == x)
+                s.conds.append(z3.ForAll([k], z3.Implies(z3.And(k >= 0, k < n0), new[k] == items.t[k]), patterns=[new[k]]))
+                self.write_field(s, base, cls, "items", Val(new, items.ty), line)
                 yield s, Val(z3.IntVal(0), "none")
                 return
             if attr == "extend":
